@@ -14,9 +14,12 @@ Section Inv.
   Variables accb acck : str -> str -> Prop.
   Variables rhb rhk : fhandle -> str -> nat -> Prop.
   Variables whb whk : fhandle -> str -> nat -> Prop.
+  (** what the base hides (HiddenFS): paths at or below a hidden location, and
+      the proper ancestors of one; the backup filesystem hides nothing *)
+  Variables hid anc : str -> Prop.
 
-  Definition base_laws := api_laws base Vb Vk tnb accb rhb whb.
-  Definition backup_laws := api_laws backup Vk Vb tnk acck rhk whk.
+  Definition base_laws := api_laws base Vb Vk tnb accb rhb whb hid anc.
+  Definition backup_laws := api_laws backup Vk Vb tnk acck rhk whk nohid nohid.
   (** the reading laws of Spec/Laws2.v are needed for the base only *)
   Definition base_laws2 := api_laws2 base Vb Vk tnb accb rhb whb.
 
